@@ -1,5 +1,6 @@
 import FCA.Model.Misc
 import FCA.Proofs.Galois
+import FCA.Proofs.LatticeSpec
 /-
 C08 — Order and logical-relation predicates on concepts match their extents.
 
@@ -133,6 +134,59 @@ theorem C08_union_all (x y t : Nat) (hx : x ⊆ᵇ t) (hy : y ⊆ᵇ t) :
   · intro h
     apply ext; intro i; rw [mem_or]
     exact ⟨fun hi => hi.elim (hx i) (hy i), h i⟩
+
+/-! ### on members of the lattice: `t` is the extent of `lattice.supremum`, i.e. all objects -/
+
+/-- the third argument the methods pass, `self.lattice.supremum._extent`, is the set of all objects -/
+theorem C08_lattice_supremum (K : Ctx) (h : K.WF) :
+    ∃ c, (mkLattice K).supremum = some c ∧ c.extent = full K.n := (mkLattice_spec h).get_last
+
+theorem C08_lattice_complement (hP : P.Correct) (K : Ctx) (h : K.WF) (i j : Nat) (a b : LConcept)
+    (ha : (mkLattice K)[i]? = some a) (hb : (mkLattice K)[j]? = some b) :
+    P.complement_of a.extent b.extent (full K.n) = true ↔
+      (¬ ∃ o, o ∈ᵇ a.extent ∧ o ∈ᵇ b.extent) ∧ ∀ o, o < K.n → o ∈ᵇ a.extent ∨ o ∈ᵇ b.extent := by
+  have S := mkLattice_spec h
+  rw [hP.complement_of, C08_union_all _ _ _ (bounded_iff_sub_full.mp (S.bounded ha)) (bounded_iff_sub_full.mp (S.bounded hb))]
+  simp only [mem_full]
+
+theorem C08_lattice_subcontrary (hP : P.Correct) (K : Ctx) (h : K.WF) (i j : Nat) (a b : LConcept)
+    (ha : (mkLattice K)[i]? = some a) (hb : (mkLattice K)[j]? = some b) :
+    P.subcontrary_with a.extent b.extent (full K.n) = true ↔
+      (∃ o, o ∈ᵇ a.extent ∧ o ∈ᵇ b.extent) ∧ ∀ o, o < K.n → o ∈ᵇ a.extent ∨ o ∈ᵇ b.extent := by
+  have S := mkLattice_spec h
+  rw [hP.subcontrary_with, C08_union_all _ _ _ (bounded_iff_sub_full.mp (S.bounded ha)) (bounded_iff_sub_full.mp (S.bounded hb))]
+  simp only [mem_full]
+
+theorem C08_lattice_orthogonal (hP : P.Correct) (K : Ctx) (h : K.WF) (i j : Nat) (a b : LConcept)
+    (ha : (mkLattice K)[i]? = some a) (hb : (mkLattice K)[j]? = some b) :
+    P.orthogonal_to a.extent b.extent (full K.n) = true ↔
+      (∃ o, o ∈ᵇ a.extent ∧ o ∈ᵇ b.extent) ∧ ¬ a.extent ⊆ᵇ b.extent ∧ ¬ b.extent ⊆ᵇ a.extent ∧
+        ∃ o, o < K.n ∧ ¬ o ∈ᵇ a.extent ∧ ¬ o ∈ᵇ b.extent := by
+  have S := mkLattice_spec h
+  rw [C08_orthogonal_neither hP _ _ _ (bounded_iff_sub_full.mp (S.bounded ha)) (bounded_iff_sub_full.mp (S.bounded hb))]
+  simp only [mem_full]
+
+/-- `x <= y` iff extent(x) ⊆ extent(y) iff intent(y) ⊆ intent(x), for members of the lattice -/
+theorem C08_lattice_implies (hP : P.Correct) (K : Ctx) (h : K.WF) (i j : Nat) (a b : LConcept) (t : Nat)
+    (ha : (mkLattice K)[i]? = some a) (hb : (mkLattice K)[j]? = some b) :
+    (P.implies a.extent b.extent t = true ↔ a.extent ⊆ᵇ b.extent) ∧
+    (P.implies a.extent b.extent t = true ↔ b.intent ⊆ᵇ a.intent) := by
+  have S := mkLattice_spec h
+  have ca : isConcept K a.extent a.intent := isConcept_iff_closed.mpr ⟨S.closed ha, S.intent ha⟩
+  have cb : isConcept K b.extent b.intent := isConcept_iff_closed.mpr ⟨S.closed hb, S.intent hb⟩
+  exact ⟨hP.implies _ _ _, C08_implies_intent hP K h _ _ _ _ t ca cb⟩
+
+/-- distinct members are never mutually `<=`: mutual `<=` forces the same position (the same object) -/
+theorem C08_lattice_antisymm (hP : P.Correct) (K : Ctx) (h : K.WF) (i j : Nat) (a b : LConcept) (t : Nat)
+    (ha : (mkLattice K)[i]? = some a) (hb : (mkLattice K)[j]? = some b)
+    (h1 : P.implies a.extent b.extent t = true) (h2 : P.implies b.extent a.extent t = true) : i = j := by
+  have S := mkLattice_spec h
+  have he : a.extent = b.extent := (C08_partial_order hP t).2.2 _ _ h1 h2
+  have e1 := S.find_get ha
+  have e2 := S.find_get hb
+  rw [he] at e1
+  rw [e1] at e2
+  exact Option.some.inj e2
 
 example : Pinned.kernels.orthogonal_to 0b0110 0b0011 0b1111 = true := by decide
 example : Pinned.kernels.subcontrary_with 0b110 0b011 0b111 = true := by decide
